@@ -290,7 +290,10 @@ def infer_printed_type(t):
             t.var_T = t.backup_var_T
             recover_const_type(t.body)
 
-    for i in range(100):
+    # Each round marks one more constant or abstraction, so the number of
+    # rounds is bounded by the size of the term.
+    max_rounds = t.size() + 1
+    for i in range(max_rounds + 1):
         clear_const_type(t)
         type_infer(t, forbid_internal=False)
 
@@ -345,6 +348,6 @@ def infer_printed_type(t):
 
         to_replace.print_type = True
 
-    assert i != 99, "infer_printed_type: infinite loop."
+    assert i != max_rounds, "infer_printed_type: infinite loop."
 
     return None
